@@ -15,7 +15,9 @@ from vf.pyext4 import image as I, jbd2 as J, crc
 
 BUDGET = {"quick": 400, "thorough": 8000}
 BASES = ["ext4_1k", "ext4_4k", "ext4_32bit", "ext4_nocsum", "ext3_1k", "ext4_metabg", "ext4_flex4_g",
-         "ext4_csumseed", "ext4_bigalloc4"]
+         "ext4_csumseed", "ext4_bigalloc4", "ext4_xj1k", "ext4_xj4k"]
+# the last two have an external journal device (<image>.jnl): the log area starts at device block
+# 3 (1k blocks) / 2 (4k blocks), and only e2fsck (-j) can be pointed at a plain journal file
 
 
 def pattern(seed, n, magic=False):
@@ -35,14 +37,28 @@ class Base:
             self.blocks_count = img.blocks_count
             self.is64 = img.is64
             self.has_csum = img.has_csum
-            ji = img.inode(8)
-            mapping, _ = img.block_map(ji)
+            self.jdev = path + ".jnl" if os.path.exists(path + ".jnl") else None
             self.jmap = {}
-            for l, p, c, un in mapping:
-                for k in range(c):
-                    self.jmap[l + k] = p + k
-            self.jsb = J.JSB(img.blk(self.jmap[0])[:1024])
-            used = set(self.jmap.values())
+            if self.jdev:
+                # journal block numbers are block numbers of the journal device; its journal
+                # superblock sits behind the ext2 superblock of the device
+                self.jsb_blk = 2 if self.bs == 1024 else 1
+                with open(self.jdev, "rb") as jf:
+                    jf.seek(self.jsb_blk * self.bs)
+                    self.jsb = J.JSB(jf.read(1024))
+                self.jlen = os.path.getsize(self.jdev) // self.bs
+                for k in range(self.jlen):
+                    self.jmap[k] = k
+                used = set()
+            else:
+                ji = img.inode(8)
+                mapping, _ = img.block_map(ji)
+                for l, p, c, un in mapping:
+                    for k in range(c):
+                        self.jmap[l + k] = p + k
+                self.jsb_blk = 0
+                self.jsb = J.JSB(img.blk(self.jmap[0])[:1024])
+                used = set(self.jmap.values())
             free = []
             sb = img.sb
             ratio = img.ratio
@@ -148,6 +164,23 @@ def gen_case(rng, base):
                          "flip-revoke", "zero-tail", "missing-commit-mid"])
     return {"txns": txns, "start": start, "first_tid": first_tid, "compat": compat, "incompat": incompat,
             "same_uuid": same_uuid, "damage": damage, "csum": csum, "pool": pool, "filepool": filepool}
+
+
+def expectations(case, txns, options):
+    """The block contents a correct replay may leave, one dict per acceptable prefix length."""
+    exps = []
+    for upto in options:
+        e = J.predict(txns, 0, applied_upto=upto)
+        for (ti, blk) in case["skipped"]:
+            # the statement requires a checksum-failed block to be left untouched
+            if blk in e:
+                # find whether an earlier applicable logging exists
+                e2 = J.predict([J.Txn(blocks=[(b, d) for b, d in t.blocks if not (k == ti and b == blk)],
+                                      revokes=t.revokes, committed=t.committed) for k, t in enumerate(txns)],
+                               0, applied_upto=upto)
+                e = e2
+        exps.append(e)
+    return exps
 
 
 def apply_damage(rng, case, lay, base):
@@ -256,20 +289,29 @@ def _esc(d):
     return struct.unpack_from(">I", d, 0)[0] == J.MAGIC
 
 
+def jpath(base, imgpath):
+    """the file that holds the journal of image copy `imgpath`"""
+    return imgpath + ".jnl" if base.jdev else imgpath
+
+
 def materialise(base, src, dst, lay):
     shutil.copyfile(src, dst)
+    if base.jdev:
+        shutil.copyfile(base.jdev, dst + ".jnl")
     bs = base.bs
-    with open(dst, "r+b") as f:
+    jloc = base.jmap[base.jsb_blk]
+    with open(jpath(base, dst), "r+b") as f:
         for jb, data in lay.blocks.items():
             f.seek(base.jmap[jb] * bs)
             f.write(data)
         jsbblk = bytearray(bs)
-        f.seek(base.jmap[0] * bs)
+        f.seek(jloc * bs)
         old = f.read(bs)
         jsbblk[:] = old
         jsbblk[:1024] = lay.jsb
-        f.seek(base.jmap[0] * bs)
+        f.seek(jloc * bs)
         f.write(bytes(jsbblk))
+    with open(dst, "r+b") as f:
         # the filesystem asks for recovery
         sb = bytearray(base.sb_raw)
         inc = struct.unpack_from("<I", sb, 96)[0] | 0x4
@@ -285,7 +327,7 @@ def compare(base, before_path, after_path, expected, lay, label, only=None):
     must be unchanged, apart from the fs superblock, the journal superblock and descriptors."""
     viol = []
     bs = base.bs
-    jsb_phys = base.jmap[0]
+    jsb_phys = base.jmap[base.jsb_blk] if not base.jdev else -1
     with open(before_path, "rb") as fb, open(after_path, "rb") as fa:
         nb = base.blocks_count
         sbblk = 1024 // bs
@@ -319,8 +361,9 @@ def compare(base, before_path, after_path, expected, lay, label, only=None):
                     wrong.append((b, "block %d changed although no applicable transaction logs it" % b))
         for b, w in wrong[:4]:
             viol.append(("%s block-content" % label, w))
-        fa.seek(jsb_phys * bs)
-        j = J.JSB(fa.read(1024))
+        with open(jpath(base, after_path), "rb") as fj:
+            fj.seek(base.jmap[base.jsb_blk] * bs)
+            j = J.JSB(fj.read(1024))
         if j.start != 0:
             viol.append(("%s journal-not-empty" % label, "journal superblock s_start=%d after replay" % j.start))
         fa.seek(1024)
@@ -348,18 +391,7 @@ def _one(arg):
            "revokes": sum(len(t.revokes) for t in txns), "tags": sum(len(t.blocks) for t in txns),
            "incompat": case["incompat"], "tag_bytes": lay.tag_bytes, "same_uuid": case["same_uuid"],
            "multi_desc": any(t.tags_per_desc for t in txns)}
-    exps = []
-    for upto in options:
-        e = J.predict(txns, 0, applied_upto=upto)
-        for (ti, blk) in case["skipped"]:
-            # the statement requires a checksum-failed block to be left untouched
-            if blk in e:
-                # find whether an earlier applicable logging exists
-                e2 = J.predict([J.Txn(blocks=[(b, d) for b, d in t.blocks if not (k == ti and b == blk)],
-                                      revokes=t.revokes, committed=t.committed) for k, t in enumerate(txns)],
-                               0, applied_upto=upto)
-                e = e2
-        exps.append(e)
+    exps = expectations(case, txns, options)
     all_logged = set(b for t in txns for b, _ in t.blocks)
     out["applied"] = len(exps[0])
     out["withheld"] = len(all_logged - set(exps[0]))
@@ -368,10 +400,17 @@ def _one(arg):
               ("debugfs-jr", [tools["debugfs"], "-w", "-R", "jr"])]
     if idx % 4 == 0:
         fronts.append(("e2fsck-fy", [tools["e2fsck"], "-fy"]))
+    if base.jdev:
+        # debugfs jr finds an external journal only through blkid
+        fronts = [f for f in fronts if f[0] != "debugfs-jr"]
+    out["external"] = bool(base.jdev)
     try:
         for label, argv in fronts:
             post = os.path.join(workdir, "c%d.%s.img" % (idx, label))
             shutil.copyfile(pre, post)
+            if base.jdev:
+                shutil.copyfile(pre + ".jnl", post + ".jnl")
+                argv = argv + ["-j", post + ".jnl"]
             r = run.run(argv + [post], env=env, timeout=300)
             results[label] = (r.rc, r.sig)
             if r.timed_out:
@@ -392,7 +431,8 @@ def _one(arg):
             if label == "e2fsck-fy":
                 if r.rc not in (0, 1) and case["damage"] in ("none", "stale-next"):
                     out["viol"].append(("e2fsck-fy exit", "exit %s on an undamaged journal: %s" % (r.rc, r.text[-300:])))
-                rr = run.run([tools["e2fsck"], "-fn", post], env=env, timeout=300)
+                rr = run.run([tools["e2fsck"], "-fn"] + (["-j", post + ".jnl"] if base.jdev else []) + [post],
+                             env=env, timeout=300)
                 if rr.rc != 0 and not (case["must_report"] and r.rc not in (0, 1)):
                     if r.rc in (0, 1):
                         out["viol"].append(("e2fsck-fy then -fn not clean", rr.text[-300:]))
@@ -403,11 +443,14 @@ def _one(arg):
                 # a data block failed its checksum: the run must not claim a clean result silently
                 pass
             os.unlink(post)
+            if base.jdev:
+                os.unlink(post + ".jnl")
     finally:
-        try:
-            os.unlink(pre)
-        except OSError:
-            pass
+        for pth in (pre, pre + ".jnl"):
+            try:
+                os.unlink(pth)
+            except OSError:
+                pass
     out["rcs"] = results
     out["sample"] = {"base": name, "transactions": [{"tags": [b for b, _ in t.blocks][:6], "revokes": t.revokes[:6],
                                                      "committed": t.committed} for t in txns[:3]],
@@ -448,6 +491,10 @@ def main(tier, seed, replay=None, scale=1.0):
             rep.count("damage " + r["damage"])
             rep.count("csum " + r["csum"])
             rep.count("tag_bytes %d" % r["tag_bytes"])
+            if r.get("external"):
+                rep.count("external_journal_cases")
+                if r["wrapped"]:
+                    rep.count("external_journal_wrapped")
             if r["wrapped"]:
                 rep.count("log_wrapped")
             if r["escapes"]:
